@@ -320,7 +320,7 @@ def source_of(c):
         t = op_text(o)
         if via == "def" and o["k"] == "r":
             lines.append(".def Reg%c = r%d" % ("AB"[i % 2], o["n"]))
-            t = "reg%c" % "ab"[i % 2]
+            t = ("reg%c", "REG%c", "Reg%c", "rEg%c")[(o["n"] + i) % 4] % "ab"[i % 2]        # aliases are matched without regard to case
         elif via == "equ" and o["k"] == "e":
             lines.append(".equ Val%d = %s" % (i, t))
             t = "VAL%d" % i
